@@ -319,7 +319,7 @@ theorem entry_todo (P : Params) (e : Entry) (L : Loop) (sc : List Answer) :
 theorem entry_calls (P : Params) (e : Entry) (L : Loop) (sc : List Answer) (x : Nat) (h : e.ev = some x) :
     callsOf (entry P e L sc).seg = prescribed P x e.mask ∨
     (isErr e.mask = false ∧ (isIn e.mask && P.hasRead x) = true ∧ callsOf (entry P e L sc).seg = [(x, .read)] ∧
-      (retsOf (entry P e L sc).seg ≠ [.cont] ∨ x ∈ removedIn (entry P e L sc).seg)) := by
+      ((∃ r ∈ retsOf (entry P e L sc).seg, r ≠ .cont) ∨ x ∈ removedIn (entry P e L sc).seg)) := by
   unfold entry prescribed
   simp only [h]
   cases he : isErr e.mask with
@@ -336,11 +336,11 @@ theorem entry_calls (P : Params) (e : Entry) (L : Loop) (sc : List Answer) (x : 
       cases hret : c.ret with
       | abort =>
         right
-        refine ⟨trivial, trivial, hcalls, Or.inl ?_⟩
+        refine ⟨trivial, trivial, hcalls, Or.inl ⟨.abort, ?_, by simp⟩⟩
         simp [hrets, hret]
       | removed =>
         right
-        refine ⟨trivial, trivial, hcalls, Or.inl ?_⟩
+        refine ⟨trivial, trivial, hcalls, Or.inl ⟨.removed, ?_, by simp⟩⟩
         simp [hrets, hret]
       | cont =>
         dsimp only
@@ -585,5 +585,432 @@ theorem dispatchLoop_inv (P : Params) (hn : P.nulling = true) (x : Nat) (n : Nat
         simp only [DispRes.trace, List.flatten_cons] at hd ⊢
         rw [monX_append, statusAfter_append]
         exact ⟨⟨he.1, hd.1⟩, hd.2⟩
+
+
+theorem dispatch_inv (P : Params) (hn : P.nulling = true) (x : Nat) (L : Loop) (sc : List Answer)
+    (s : Status) (h : Inv x s L) :
+    monX x s (dispatch P L sc).trace ∧
+      Inv x (statusAfter x s (dispatch P L sc).trace) (dispatch P L sc).loop :=
+  dispatchLoop_inv P hn x L.todo.length L sc s h
+
+/-! ### `run` -/
+
+theorem handleBatch_trace (P : Params) (b : List (Nat × Mask)) (L : Loop) (sc : List Answer) :
+    (handleBatch P b L sc).trace =
+      (dispatch P { L with done := [], todo := b.map fun p => ⟨some p.1, p.2⟩ } sc).trace := rfl
+
+theorem handleBatch_aborted (P : Params) (b : List (Nat × Mask)) (L : Loop) (sc : List Answer) :
+    (handleBatch P b L sc).aborted =
+      (dispatch P { L with done := [], todo := b.map fun p => ⟨some p.1, p.2⟩ } sc).aborted := rfl
+
+theorem mem_harvest {P : Params} {reg : List Nat} {ready : List (Nat × Mask)} {p : Nat × Mask}
+    (h : p ∈ harvest P reg ready) : p.1 ∈ reg ∧ p ∈ ready := by
+  unfold harvest at h
+  have h' := List.mem_filter.1 (List.mem_of_mem_take h)
+  exact ⟨by simpa using h'.2, h'.1⟩
+
+theorem handleBatch_inv (P : Params) (hn : P.nulling = true) (x : Nat) (ready : List (Nat × Mask)) (L : Loop)
+    (sc : List Answer) (s : Status) (h : Inv x s L) :
+    monX x (stepStatus x s (.harvest (harvest P L.reg ready))) (handleBatch P (harvest P L.reg ready) L sc).trace ∧
+      Inv x (statusAfter x (stepStatus x s (.harvest (harvest P L.reg ready)))
+              (handleBatch P (harvest P L.reg ready) L sc).trace)
+        (handleBatch P (harvest P L.reg ready) L sc).loop := by
+  have h1 : Inv x (stepStatus x s (.harvest (harvest P L.reg ready)))
+      { L with done := [], todo := (harvest P L.reg ready).map fun p => ⟨some p.1, p.2⟩ } := by
+    simp only [stepStatus]
+    cases s with
+    | ok => exact ⟨fun hd => (by cases hd), fun hs => absurd rfl hs⟩
+    | stale => exact ⟨fun hd => (by cases hd), fun hs => absurd rfl hs⟩
+    | dead =>
+      refine ⟨fun _ => h.1 rfl, fun _ => ⟨?_, (h.2 (by simp)).2⟩⟩
+      intro e he
+      obtain ⟨p, hp, rfl⟩ := List.mem_map.1 he
+      intro hc
+      injection hc with hc
+      exact h.1 rfl (hc ▸ (mem_harvest hp).1)
+  have hd := dispatch_inv P hn x _ sc _ h1
+  rw [handleBatch_trace]
+  refine ⟨hd.1, ?_⟩
+  have h2 := hd.2
+  unfold handleBatch
+  exact ⟨h2.1, fun hs => ⟨by simp, (h2.2 hs).2⟩⟩
+
+theorem run_inv (P : Params) (hn : P.nulling = true) (x : Nat) (ws : List Wait) (L : Loop) (sc : List Answer)
+    (s : Status) (h : Inv x s L) : monX x s (run P ws L sc).trace := by
+  induction ws generalizing L sc s with
+  | nil =>
+    unfold run
+    split <;> simp [monX]
+  | cons w ws ih =>
+    unfold run
+    split
+    · simp [monX]
+    · cases w with
+      | eintr =>
+        refine ⟨by simp, ?_⟩
+        exact ih L sc s h
+      | err => simp [monX]
+      | batch ready =>
+        have hb := handleBatch_inv P hn x ready L sc s h
+        dsimp only
+        split
+        · refine ⟨by simp, ?_⟩
+          rw [monX_append]
+          exact ⟨hb.1, by simp [monX]⟩
+        · refine ⟨by simp, ?_⟩
+          rw [monX_append]
+          exact ⟨hb.1, ih _ _ _ hb.2⟩
+
+/-! ### from the monitor to statements about positions in the trace -/
+
+theorem stepStatus_ne_ok {x : Nat} {s : Status} {e : TEv} (hs : s ≠ .ok) (he : ∀ b, e ≠ .harvest b) :
+    stepStatus x s e ≠ .ok := by
+  cases e <;> simp only [stepStatus]
+  case removed y => split <;> simp [hs]
+  case added y ok => split <;> simp [hs]
+  case harvest b => exact absurd rfl (he b)
+  all_goals exact hs
+
+theorem monX_no_call {x : Nat} {s : Status} {t : List TEv} (hs : s ≠ .ok) (hm : monX x s t)
+    (hh : ∀ b, TEv.harvest b ∉ t) (f : Fn) : TEv.call x f ∉ t := by
+  induction t generalizing s with
+  | nil => simp
+  | cons e t ih =>
+    intro hmem
+    rcases List.mem_cons.1 hmem with he | hmem
+    · exact hs (hm.1 f he.symm)
+    · exact ih (stepStatus_ne_ok hs (fun b hb => hh b (by simp [hb]))) hm.2
+        (fun b hb => hh b (by simp [hb])) hmem
+
+theorem statusAfter_removed (x : Nat) (s : Status) (pre : List TEv) :
+    statusAfter x s (pre ++ [.removed x]) = .dead := by
+  rw [statusAfter_append]; simp [stepStatus]
+
+/-- From `dead` (or `stale`) the status `ok` is reached only through a successful `add` of `x`
+    followed by a new harvest (from `stale`: a harvest). -/
+theorem statusAfter_ok_decomp (x : Nat) (t : List TEv) :
+    ∀ s, s ≠ .ok → statusAfter x s t = .ok →
+      (∃ m b m3, t = m ++ .harvest b :: m3) ∧
+      (s = .dead → ∃ m1 m2 b m3, t = m1 ++ .added x true :: (m2 ++ .harvest b :: m3)) := by
+  induction t with
+  | nil => intro s hs h; exact absurd h hs
+  | cons e t ih =>
+    intro s hs h
+    rw [statusAfter_cons] at h
+    by_cases hk : stepStatus x s e = .ok
+    · -- the step itself reaches ok: `e` is a harvest and `s = stale`
+      cases e <;> simp only [stepStatus] at hk
+      case removed y => split at hk <;> simp_all
+      case added y ok => split at hk <;> simp_all
+      case harvest b =>
+        refine ⟨⟨[], b, t, rfl⟩, fun hd => ?_⟩
+        subst hd; simp at hk
+      all_goals exact absurd hk hs
+    · obtain ⟨⟨m, b, m3, ht⟩, hdead⟩ := ih _ hk h
+      refine ⟨⟨e :: m, b, m3, by rw [ht]; rfl⟩, fun hd => ?_⟩
+      subst hd
+      by_cases hd' : stepStatus x .dead e = .dead
+      · obtain ⟨m1, m2, b', m3', ht'⟩ := hdead hd'
+        exact ⟨e :: m1, m2, b', m3', by rw [ht']; rfl⟩
+      · -- dead → stale: `e = added x true`
+        cases e <;> simp only [stepStatus] at hd' hk
+        case removed y => split at hd' <;> simp_all
+        case added y ok =>
+          by_cases hc : y = x ∧ ok = true ∧ True
+          · obtain ⟨rfl, rfl, _⟩ := hc
+            exact ⟨[], m, b, m3, by rw [ht]; rfl⟩
+          · rw [if_neg hc] at hd'; exact absurd rfl hd'
+        all_goals simp_all
+
+
+/-! ### which array entry produced which segment -/
+
+theorem entry_todo_length (P : Params) (e : Entry) (L : Loop) (sc : List Answer) :
+    (entry P e L sc).loop.todo.length = L.todo.length := by
+  rw [entry_todo]; simp
+
+theorem dispatchLoop_segs_entry (P : Params) (n : Nat) (L : Loop) (sc : List Answer) :
+    ∀ seg ∈ (dispatchLoop P n L sc).segs, ∃ e L' sc', seg = (entry P e L' sc').seg := by
+  induction n generalizing L sc with
+  | zero => simp [dispatchLoop]
+  | succ n ih =>
+    cases hL : L.todo with
+    | nil => rw [dispatchLoop_nil P _ L sc hL]; simp
+    | cons e rest =>
+      rw [dispatchLoop_cons P n L sc e rest hL]
+      split
+      · intro seg hs
+        simp only [List.mem_singleton] at hs
+        exact ⟨_, _, _, hs⟩
+      · intro seg hs
+        rcases List.mem_cons.1 hs with h | h
+        · exact ⟨_, _, _, h⟩
+        · exact ih _ _ seg h
+
+theorem dispatchLoop_length (P : Params) (n : Nat) (L : Loop) (sc : List Answer) (hn : n = L.todo.length) :
+    (dispatchLoop P n L sc).segs.length ≤ n ∧
+      ((dispatchLoop P n L sc).aborted = false → (dispatchLoop P n L sc).segs.length = n) := by
+  induction n generalizing L sc with
+  | zero => simp [dispatchLoop]
+  | succ n ih =>
+    cases hL : L.todo with
+    | nil => rw [hL] at hn; simp at hn
+    | cons e rest =>
+      rw [dispatchLoop_cons P n L sc e rest hL]
+      have hlen : n = (entry P e { L with done := L.done ++ [e], todo := rest } sc).loop.todo.length := by
+        rw [entry_todo_length]; rw [hL] at hn; simpa using hn
+      split
+      · simp
+      · have := ih _ (entry P e { L with done := L.done ++ [e], todo := rest } sc).script hlen
+        simp only [List.length_cons]
+        exact ⟨by omega, fun h => by have := this.2 h; omega⟩
+
+theorem dispatchLoop_none_at (P : Params) (n : Nat) (L : Loop) (sc : List Answer) (i : Nat) (m : Mask)
+    (seg : List TEv) (hi : L.todo[i]? = some ⟨none, m⟩) (hs : (dispatchLoop P n L sc).segs[i]? = some seg) :
+    seg = [] := by
+  induction n generalizing L sc i with
+  | zero => simp [dispatchLoop] at hs
+  | succ n ih =>
+    cases hL : L.todo with
+    | nil => rw [hL] at hi; simp at hi
+    | cons e rest =>
+      rw [dispatchLoop_cons P n L sc e rest hL] at hs
+      rw [hL] at hi
+      cases i with
+      | zero =>
+        simp only [List.getElem?_cons_zero, Option.some.injEq] at hi
+        subst hi
+        split at hs <;> simp only [List.getElem?_cons_zero, Option.some.injEq] at hs <;>
+          rw [← hs, entry_none _ _ _ _ rfl]
+      | succ i =>
+        simp only [List.getElem?_cons_succ] at hi
+        split at hs
+        · simp at hs
+        · simp only [List.getElem?_cons_succ] at hs
+          refine ih _ _ i ?_ hs
+          rw [entry_todo]
+          simp [hi, nullBy]
+
+/-- The segment of array position `i`: nothing if the `io_event` was removed by an earlier
+    position (then the entry was nulled), otherwise one run of `entry` on the original entry. -/
+theorem dispatchLoop_at (P : Params) (hn : P.nulling = true) (n : Nat) (L : Loop) (sc : List Answer) (i x : Nat)
+    (m : Mask) (seg : List TEv) (hi : L.todo[i]? = some ⟨some x, m⟩)
+    (hs : (dispatchLoop P n L sc).segs[i]? = some seg) :
+    (x ∈ removedIn ((dispatchLoop P n L sc).segs.take i).flatten ∧ seg = []) ∨
+      (x ∉ removedIn ((dispatchLoop P n L sc).segs.take i).flatten ∧
+        ∃ L' sc', seg = (entry P ⟨some x, m⟩ L' sc').seg) := by
+  induction n generalizing L sc i with
+  | zero => simp [dispatchLoop] at hs
+  | succ n ih =>
+    cases hL : L.todo with
+    | nil => rw [hL] at hi; simp at hi
+    | cons e rest =>
+      rw [dispatchLoop_cons P n L sc e rest hL] at hs ⊢
+      rw [hL] at hi
+      cases i with
+      | zero =>
+        simp only [List.getElem?_cons_zero, Option.some.injEq] at hi
+        subst hi
+        right
+        refine ⟨by simp [removedIn], ?_⟩
+        split at hs <;> simp only [List.getElem?_cons_zero, Option.some.injEq] at hs <;>
+          exact ⟨_, _, hs.symm⟩
+      | succ i =>
+        simp only [List.getElem?_cons_succ] at hi
+        split at hs
+        · simp at hs
+        · rename_i hab
+          simp only [hab]
+          simp only [List.getElem?_cons_succ] at hs
+          simp only [Bool.false_eq_true, if_false, List.take_succ_cons, List.flatten_cons, removedIn_append,
+            List.mem_append]
+          have htodo := entry_todo P e { L with done := L.done ++ [e], todo := rest } sc
+          by_cases hx : x ∈ removedIn (entry P e { L with done := L.done ++ [e], todo := rest } sc).seg
+          · left
+            refine ⟨Or.inl hx, ?_⟩
+            refine dispatchLoop_none_at P n _ _ i m seg ?_ hs
+            rw [htodo]
+            simp [hi, nullBy, hn, hx]
+          · have hkeep : (entry P e { L with done := L.done ++ [e], todo := rest } sc).loop.todo[i]? =
+                some ⟨some x, m⟩ := by
+              rw [htodo]
+              simp [hi, nullBy, hx]
+            rcases ih _ _ i hkeep hs with h | h
+            · exact Or.inl ⟨Or.inr h.1, h.2⟩
+            · exact Or.inr ⟨fun hh => hh.elim hx h.1, h.2⟩
+
+
+/-! ### `EL_ABORT_LOOP` -/
+
+/-- `a` occurs in `l ++ a :: q'` only at that place when it occurs neither in `l` nor in `q'`. -/
+theorem split_unique {α : Type} {a : α} {l q' p q : List α} (hl : a ∉ l) (hq : a ∉ q')
+    (h : l ++ a :: q' = p ++ a :: q) : p = l ∧ q = q' := by
+  induction l generalizing p with
+  | nil =>
+    cases p with
+    | nil => simp at h; exact ⟨rfl, h.symm⟩
+    | cons c p' =>
+      simp only [List.nil_append, List.cons_append, List.cons.injEq] at h
+      exact absurd (h.2 ▸ (by simp : a ∈ p' ++ a :: q)) hq
+  | cons c l' ih =>
+    cases p with
+    | nil =>
+      simp only [List.cons_append, List.nil_append, List.cons.injEq] at h
+      exact absurd (by simp [h.1] : a ∈ c :: l') hl
+    | cons d p' =>
+      simp only [List.cons_append, List.cons.injEq] at h
+      have := ih (fun hm => hl (by simp [hm])) h.2
+      exact ⟨by rw [h.1, this.1], this.2⟩
+
+theorem callback_ends (P : Params) (x : Nat) (f : Fn) (L : Loop) (sc : List Answer) :
+    ∃ pre, (callback P x f L sc).trace = pre ++ [.ret (callback P x f L sc).ret] ∧ retsOf pre = [] := by
+  refine ⟨.call x f :: ((runActs P (nextAnswer sc).1.acts L).2 ++ [.snap (callback P x f L sc).loop]), ?_, ?_⟩
+  · rw [callback_trace]; simp
+  · simp [retsOf, retsOf_append, retsOf_of_actEv (runActs_actEv P _ L)]
+
+/-- A segment either holds no abort, or ends with the one abort it holds. -/
+def AbortShape (t : List TEv) (aborted : Bool) : Prop :=
+  (aborted = false → Ret.abort ∉ retsOf t) ∧
+  (aborted = true → ∃ pre, t = pre ++ [.ret .abort] ∧ Ret.abort ∉ retsOf pre)
+
+theorem callback_abortShape (P : Params) (x : Nat) (f : Fn) (L : Loop) (sc : List Answer) :
+    AbortShape (callback P x f L sc).trace ((callback P x f L sc).ret == .abort) := by
+  obtain ⟨pre, h1, h2⟩ := callback_ends P x f L sc
+  constructor
+  · intro hb
+    rw [callback_rets]
+    have : ¬ (callback P x f L sc).ret = .abort := by simpa using hb
+    simp only [List.mem_singleton]
+    exact fun h => this h.symm
+  · intro hb
+    have : (callback P x f L sc).ret = .abort := by simpa using hb
+    exact ⟨pre, by rw [h1, this], by simp [h2]⟩
+
+theorem abortShape_nil : AbortShape [] false := ⟨fun _ => by simp [retsOf], fun h => by cases h⟩
+
+theorem abortShape_append {t1 t2 : List TEv} {b : Bool} (h1 : Ret.abort ∉ retsOf t1) (h2 : AbortShape t2 b) :
+    AbortShape (t1 ++ t2) b := by
+  constructor
+  · intro hb; rw [retsOf_append]; simp [h1, h2.1 hb]
+  · intro hb
+    obtain ⟨pre, hp, hn⟩ := h2.2 hb
+    exact ⟨t1 ++ pre, by rw [hp]; simp, by rw [retsOf_append]; simp [h1, hn]⟩
+
+theorem writePart_abortShape (P : Params) (x : Nat) (m : Mask) (L : Loop) (sc : List Answer) :
+    AbortShape (writePart P x m L sc).seg (writePart P x m L sc).abort := by
+  unfold writePart
+  split
+  · split
+    · exact callback_abortShape P x .write L sc
+    · exact abortShape_nil
+  · exact abortShape_nil
+
+theorem entry_abortShape (P : Params) (e : Entry) (L : Loop) (sc : List Answer) :
+    AbortShape (entry P e L sc).seg (entry P e L sc).abort := by
+  unfold entry
+  split
+  · exact abortShape_nil
+  · rename_i x _
+    dsimp only
+    split
+    · exact callback_abortShape P x .error _ sc
+    · split
+      · have hc := callback_abortShape P x .read { L with current := some x } sc
+        have hr := callback_rets P x .read { L with current := some x } sc
+        split
+        · rename_i hret; rw [hret] at hc; exact hc
+        · rename_i hret; rw [hret] at hc; exact hc
+        · rename_i hret
+          dsimp only
+          refine abortShape_append ?_ (writePart_abortShape ..)
+          rw [hr, hret]; simp
+      · exact writePart_abortShape ..
+
+theorem dispatchLoop_abortShape (P : Params) (n : Nat) (L : Loop) (sc : List Answer) :
+    AbortShape (dispatchLoop P n L sc).trace (dispatchLoop P n L sc).aborted := by
+  induction n generalizing L sc with
+  | zero => exact abortShape_nil
+  | succ n ih =>
+    cases hL : L.todo with
+    | nil => rw [dispatchLoop_nil P _ L sc hL]; exact abortShape_nil
+    | cons e rest =>
+      rw [dispatchLoop_cons P n L sc e rest hL]
+      have he := entry_abortShape P e { L with done := L.done ++ [e], todo := rest } sc
+      split
+      · rename_i hab
+        rw [hab] at he
+        simpa [DispRes.trace] using he
+      · rename_i hab
+        simp only [DispRes.trace, List.flatten_cons]
+        exact abortShape_append (he.1 (by simpa using hab)) (ih _ _)
+
+theorem abortShape_last {t : List TEv} {b : Bool} (h : AbortShape t b) (pre post : List TEv)
+    (ht : t = pre ++ .ret .abort :: post) : post = [] ∧ b = true := by
+  cases b with
+  | false =>
+    exfalso
+    apply h.1 rfl
+    rw [mem_retsOf, ht]; simp
+  | true =>
+    obtain ⟨p, hp, hn⟩ := h.2 rfl
+    rw [hp] at ht
+    have := split_unique (fun hm => hn (mem_retsOf.2 hm)) (by simp) ht
+    exact ⟨this.2, rfl⟩
+
+/-- `run`: either no callback ever answered abort, or the trace ends `…, ret abort, runRet (-1)`. -/
+theorem run_abortShape (P : Params) (ws : List Wait) (L : Loop) (sc : List Answer) :
+    (Ret.abort ∉ retsOf (run P ws L sc).trace) ∨
+    (∃ pre, (run P ws L sc).trace = pre ++ [.ret .abort, .runRet (-1)] ∧ Ret.abort ∉ retsOf pre ∧
+      (run P ws L sc).rc = -1) := by
+  induction ws generalizing L sc with
+  | nil => unfold run; split <;> simp [retsOf]
+  | cons w ws ih =>
+    unfold run
+    split
+    · simp [retsOf]
+    · cases w with
+      | eintr =>
+        rcases ih L sc with h | ⟨pre, h1, h2, h3⟩
+        · left; simpa [retsOf] using h
+        · right; exact ⟨.eintr :: pre, by simp [h1], by simpa [retsOf] using h2, h3⟩
+      | err => simp [retsOf]
+      | batch ready =>
+        dsimp only
+        have hd : AbortShape (handleBatch P (harvest P L.reg ready) L sc).trace
+            (handleBatch P (harvest P L.reg ready) L sc).aborted := by
+          rw [handleBatch_trace, handleBatch_aborted]; exact dispatchLoop_abortShape ..
+        split
+        · rename_i hab
+          right
+          obtain ⟨pre, hp, hn⟩ := hd.2 hab
+          refine ⟨.harvest (harvest P L.reg ready) :: pre, by simp [hp], by simpa [retsOf] using hn, rfl⟩
+        · rename_i hab
+          have hno := hd.1 (by simpa using hab)
+          rcases ih (handleBatch P (harvest P L.reg ready) L sc).loop
+              (handleBatch P (harvest P L.reg ready) L sc).script with h | ⟨pre, h1, h2, h3⟩
+          · left; simp [retsOf, retsOf_append, hno, h]
+          · right
+            refine ⟨.harvest (harvest P L.reg ready) ::
+              ((handleBatch P (harvest P L.reg ready) L sc).trace ++ pre), by simp [h1], ?_, h3⟩
+            simp [retsOf, retsOf_append, hno, h2]
+
+/-! ### the harvested array is withdrawn after every batch -/
+
+theorem run_pending (P : Params) (ws : List Wait) (L : Loop) (sc : List Answer) (hd : L.done = []) (ht : L.todo = []) :
+    (run P ws L sc).loop.done = [] ∧ (run P ws L sc).loop.todo = [] := by
+  induction ws generalizing L sc with
+  | nil => unfold run; split <;> exact ⟨hd, ht⟩
+  | cons w ws ih =>
+    unfold run
+    split
+    · exact ⟨hd, ht⟩
+    · cases w with
+      | eintr => exact ih L sc hd ht
+      | err => exact ⟨hd, ht⟩
+      | batch ready =>
+        dsimp only
+        split
+        · exact ⟨rfl, rfl⟩
+        · exact ih _ _ rfl rfl
 
 end Cjet.Evloop
